@@ -24,3 +24,135 @@ EDITS = [
     dict(name='C09 sixth accepted type', kind='break', checks=['C09', 'C19'], edits=[
         dict(file='src/base_packet.rs', old="            0x7F => MessageType::VendorDefinedIANA,", new="            0x7F => MessageType::VendorDefinedIANA,\n            0x7D => MessageType::VendorDefinedIANA,")]),
 ]
+
+T = 'src/mctp_traits.rs'
+RQ = 'src/smbus_request.rs'
+RS = 'src/smbus_response.rs'
+P = 'src/smbus_proto.rs'
+B = 'src/base_packet.rs'
+CP = 'src/control_packet.rs'
+EDITS += [
+    dict(name='C01 request length table resolve EID 1->2', kind='break', checks=['C01'], edits=[
+        dict(file=T, old="CommandCode::ResolveEndpointID => 1,", new="CommandCode::ResolveEndpointID => 2,")]),
+    dict(name='C01 secured arm payload one short', kind='break', checks=['C01'], edits=[
+        dict(file=S, old="Ok((MessageType::SecuredMessages, &packet[9..(packet_len)]))", new="Ok((MessageType::SecuredMessages, &packet[9..(packet_len - 1)]))")]),
+    dict(name='C02 delete PCI PEC comparison', kind='break', checks=['C02'], edits=[
+        dict(file=S, old="""                if pec != calculated_pec {
+                    #[cfg(test)]
+                    println!("pec {:#x} != calculated_pec {:#x}", pec, calculated_pec);
+                    return Err((
+                        MessageType::VendorDefinedPCI,""", new="""                if pec != calculated_pec && packet_len == 0 {
+                    #[cfg(test)]
+                    println!("pec {:#x} != calculated_pec {:#x}", pec, calculated_pec);
+                    return Err((
+                        MessageType::VendorDefinedPCI,""")]),
+    dict(name='C02 control path compares PEC of a shorter view', kind='break', checks=['C02'], edits=[
+        dict(file=S, old="        let calculated_pec = pec(&packet[0..(packet.len() - 1)]);\n\n        match body_header.msg_type().into() {", new="        let calculated_pec = pec(&packet[1..(packet.len() - 1)]);\n\n        match body_header.msg_type().into() {")]),
+    dict(name='C02/C13 set_eid hoisted above decode', kind='break', checks=['C02', 'C13'], edits=[
+        dict(file=S, old="        let (msg_type, payload) = self.decode_packet(packet)?;\n\n        match msg_type {", new="        if packet.len() > 13 && packet[10] == 0x01 {\n            self.get_response().set_eid(packet[12]);\n        }\n        let (msg_type, payload) = self.decode_packet(packet)?;\n\n        match msg_type {")]),
+    dict(name='C03 pec over a capped prefix', kind='break', checks=['C03'], edits=[
+        dict(file=P, old="buf[size] = pec(&buf[0..size]);", new="buf[size] = pec(&buf[0..size.min(64)]);")]),
+    dict(name='C03 pec skips the destination byte', kind='break', checks=['C03'], edits=[
+        dict(file=P, old="buf[size] = pec(&buf[0..size]);", new="buf[size] = pec(&buf[1..size]);")]),
+    dict(name='C04 dest address masked to 6 bits', kind='break', checks=['C04'], edits=[
+        dict(file=T, old="smbus_header.set_dest_slave_addr(dest_addr);", new="smbus_header.set_dest_slave_addr(dest_addr & 0x3F);")]),
+    dict(name='C04/C17 probe adds 3', kind='break', checks=['C04', 'C17'], edits=[
+        dict(file=S, old="return Ok(smbus_header.byte_count() as usize + 4);", new="return Ok(smbus_header.byte_count() as usize + 3);")]),
+    dict(name='C04 byte count cast before subtract (D14 back)', kind='break', checks=['C04', 'C16', 'C10'], edits=[
+        dict(file=P, old="self.smbus_header.set_byte_count((self.len() - 4) as u8);", new="self.smbus_header.set_byte_count(self.len() as u8 - 4);")]),
+    dict(name='C05 source EID set to the destination', kind='break', checks=['C05'], edits=[
+        dict(file=T, old="base_header.set_source_endpoint_id(self.get_address());", new="base_header.set_source_endpoint_id(dest_addr);")]),
+    dict(name='C05/C08 IANA writer uses the PCI type', kind='break', checks=['C05', 'C08'], edits=[
+        dict(file=T, old="MCTPMessageBodyHeader::new(false, MessageType::VendorDefinedIANA);", new="MCTPMessageBodyHeader::new(false, MessageType::VendorDefinedPCI);")]),
+    dict(name='C06 resolve_uuid never stores entry_handle', kind='break', checks=['C06'], edits=[
+        dict(file=RQ, old="        message_data[16] = entry_handle;\n", new="        let _ = entry_handle;\n")]),
+    dict(name='C06 get_routing_table_entries sends 0', kind='break', checks=['C06'], edits=[
+        dict(file=RQ, old="let message_data: [u8; 1] = [entry_handle];", new="let _ = entry_handle;\n        let message_data: [u8; 1] = [0];")]),
+    dict(name='C06 allocate swaps pool size and start', kind='break', checks=['C06'], edits=[
+        dict(file=RQ, old="[operation as u8, pool_size, starting_eid]", new="[operation as u8, starting_eid, pool_size]")]),
+    dict(name='C07 endpoint type shifted by 5', kind='break', checks=['C07'], edits=[
+        dict(file=RS, old="((endpoint_type as u8) << 4) | endpoint_id_type as u8,", new="((endpoint_type as u8) << 5) | endpoint_id_type as u8,")]),
+    dict(name='C07 rejected flag in bit 5', kind='break', checks=['C07'], edits=[
+        dict(file=RS, old="message_data[1] |= 1 << 4;", new="message_data[1] |= 1 << 5;")]),
+    dict(name='C07 version entry 1.3.0', kind='break', checks=['C07', 'C15'], edits=[
+        dict(file=RS, old="[completion_code as u8, 1, 0xF1, 0xF3, 0xF1, 0x00]", new="[completion_code as u8, 1, 0xF1, 0xF3, 0xF0, 0x00]")]),
+    dict(name='C08 PCI vendor ID bytes swapped', kind='break', checks=['C08'], edits=[
+        dict(file=RQ, old="PCIMessageFormat::new(format.data as u16);", new="PCIMessageFormat::new((format.data as u16).swap_bytes());")]),
+    dict(name='C08 third accepted format', kind='break', checks=['C08', 'C16'], edits=[
+        dict(file=RQ, old="} else if format.format == 1 {\n            /* IANA message format */", new="} else if format.format == 1 || format.format == 3 {\n            /* IANA message format */")]),
+    dict(name='C10 get_length guard < 2', kind='break', checks=['C10', 'C17'], edits=[
+        dict(file=S, old="        if packet.len() < 3 {\n            return Err((MessageType::Invalid, DecodeError::Unknown));\n        }\n\n        let mut smbus_header_buf: [u8; 4] = [0; 4];\n        smbus_header_buf[0..3]", new="        if packet.len() < 2 {\n            return Err((MessageType::Invalid, DecodeError::Unknown));\n        }\n\n        let mut smbus_header_buf: [u8; 4] = [0; 4];\n        smbus_header_buf[0..3]")]),
+    dict(name='C10 header guard < 9', kind='break', checks=['C10'], edits=[
+        dict(file=S, old="if packet.len() < 10 {", new="if packet.len() < 9 {")]),
+    dict(name='C11 remove the SPDM arm again', kind='break', checks=['C11'], edits=[
+        dict(file=S, old="MessageType::SpdmOverMctp | MessageType::SecuredMessages => {\n                // Not a control message", new="MessageType::SecuredMessages => {\n                // Not a control message")]),
+    dict(name='C11 returns a re-sliced payload', kind='break', checks=['C11'], edits=[
+        dict(file=S, old="            MessageType::VendorDefinedPCI => {\n                // Vendor defined, we don't know what to do\n                Ok(((msg_type, payload), None))", new="            MessageType::VendorDefinedPCI => {\n                // Vendor defined, we don't know what to do\n                Ok(((msg_type, &payload[payload.len().min(2)..]), None))")]),
+    dict(name='C12 UUID arm answers to the destination EID', kind='break', checks=['C12'], edits=[
+        dict(file=S, old="""                                .get_endpoint_uuid(
+                                    CompletionCode::Success,
+                                    base_header.source_endpoint_id(),""", new="""                                .get_endpoint_uuid(
+                                    CompletionCode::Success,
+                                    base_header.dest_endpoint_id(),""")]),
+    dict(name='C13 request half not updated', kind='break', checks=['C13'], edits=[
+        dict(file=S, old="                                self.get_request().set_eid(payload[1]);\n", new="")]),
+    dict(name='C13 Force no longer assigns', kind='break', checks=['C13'], edits=[
+        dict(file=S, old="""                            if payload[0] == MCTPSetEndpointIDOperations::SetEID as u8
+                                || payload[0] == MCTPSetEndpointIDOperations::ForceEID as u8
+                            {""", new="""                            if payload[0] == MCTPSetEndpointIDOperations::SetEID as u8 {""")]),
+    dict(name='C13 Get Endpoint ID handler writes the EID', kind='break', checks=['C13'], edits=[
+        dict(file=S, old="                        CommandCode::GetEndpointID => {\n                            len = self", new="                        CommandCode::GetEndpointID => {\n                            self.get_request().set_eid(base_header.source_endpoint_id());\n                            len = self")]),
+    dict(name='C14 last-set test off by one', kind='break', checks=['C14'], edits=[
+        dict(file=S, old="if (payload[0] + 1) == self.vendor_ids.len() as u8 {", new="if (payload[0] + 2) == self.vendor_ids.len() as u8 {")]),
+    dict(name='C14 IANA top byte shifted by 16', kind='break', checks=['C14'], edits=[
+        dict(file=S, old="                                    (vendor_id.data >> 24) as u8,\n                                    (vendor_id.data >> 16) as u8,", new="                                    (vendor_id.data >> 16) as u8,\n                                    (vendor_id.data >> 16) as u8,")]),
+    dict(name='C15/C16 more than 3 types refused', kind='break', checks=['C15', 'C16'], edits=[
+        dict(file=RS, old="if supported_msg_types.len() > 30 {", new="if supported_msg_types.len() > 3 {")]),
+    dict(name='C15 UUID copied partially', kind='break', checks=['C15'], edits=[
+        dict(file=S, old="self.uuid.copy_from_slice(uuid)", new="self.uuid[0..15].copy_from_slice(&uuid[0..15])")]),
+    dict(name='C16 EID refusal reduced to 0xFF', kind='break', checks=['C16'], edits=[
+        dict(file=RQ, old="if eid == 0xFF || eid == 0x00 {", new="if eid == 0xFF {")]),
+    dict(name='C16 writer touches a byte past the packet', kind='break', checks=['C16', 'C03'], edits=[
+        dict(file=P, old="        buf[size] = pec(&buf[0..size]);\n        size += 1;\n", new="        buf[size] = pec(&buf[0..size]);\n        size += 1;\n        if buf.len() > size {\n            buf[size] = 0;\n        }\n")]),
+    dict(name='C17 probe compares 0x0E', kind='break', checks=['C17'], edits=[
+        dict(file=S, old="if smbus_header.command_code() == MCTP_SMBUS_COMMAND_CODE {", new="if smbus_header.command_code() == MCTP_SMBUS_COMMAND_CODE - 1 {")]),
+    dict(name='C18 pkt_seq one bit wide', kind='break', checks=['C18'], edits=[
+        dict(file=B, old="pub pkt_seq, set_pkt_seq: 27, 26;", new="pub pkt_seq, set_pkt_seq: 27, 27;")]),
+    dict(name='C18 instance_id 4 bits', kind='break', checks=['C18'], edits=[
+        dict(file=CP, old="pub instance_id, set_instance_id: 7, 3;", new="pub instance_id, set_instance_id: 7, 4;")]),
+    dict(name='C19 swap 0x12 and 0x13 arms', kind='break', checks=['C19'], edits=[
+        dict(file=CP, old="            0x12 => CommandCode::RequestTXRateLimit,\n            0x13 => CommandCode::UpdateRateLimit,", new="            0x12 => CommandCode::UpdateRateLimit,\n            0x13 => CommandCode::RequestTXRateLimit,")]),
+    # ---- neutral edits: every check must stay silent
+    dict(name='NEUTRAL packet.len()-1 bound once', kind='neutral', checks=['C01', 'C02', 'C09', 'C10', 'C11'], edits=[
+        dict(file=S, old="        let calculated_pec = pec(&packet[0..(packet.len() - 1)]);\n\n        match body_header.msg_type().into() {", new="        let last = packet.len() - 1;\n        let calculated_pec = pec(&packet[0..last]);\n\n        match body_header.msg_type().into() {")]),
+    dict(name='NEUTRAL PCI arm rewritten if-eq-else', kind='neutral', checks=['C02', 'C09', 'C11'], edits=[
+        dict(file=S, old="""                if pec != calculated_pec {
+                    #[cfg(test)]
+                    println!("pec {:#x} != calculated_pec {:#x}", pec, calculated_pec);
+                    return Err((
+                        MessageType::VendorDefinedPCI,
+                        DecodeError::ControlMessage(ControlMessageError::InvalidPEC),
+                    ));
+                }
+                Ok((MessageType::VendorDefinedPCI, &packet[9..(packet_len)]))""", new="""                if pec == calculated_pec {
+                    Ok((MessageType::VendorDefinedPCI, &packet[9..(packet_len)]))
+                } else {
+                    Err((
+                        MessageType::VendorDefinedPCI,
+                        DecodeError::ControlMessage(ControlMessageError::InvalidPEC),
+                    ))
+                }""")]),
+    dict(name='NEUTRAL header setters reordered', kind='neutral', checks=['C03', 'C04', 'C05', 'C06', 'C07', 'C12', 'C16'], edits=[
+        dict(file=T, old="        base_header.set_dest_endpoint_id(dest_addr);\n        base_header.set_source_endpoint_id(self.get_address());\n        base_header.set_som(true as u8);\n        base_header.set_eom(true as u8);", new="        base_header.set_eom(true as u8);\n        base_header.set_som(true as u8);\n        base_header.set_source_endpoint_id(self.get_address());\n        base_header.set_dest_endpoint_id(dest_addr);")]),
+    dict(name='NEUTRAL payload via absolute re-slicing', kind='neutral', checks=['C01', 'C09', 'C11'], edits=[
+        dict(file=S, old="Ok((MessageType::SpdmOverMctp, &packet[9..(packet_len)]))", new="Ok((MessageType::SpdmOverMctp, &(&packet[9..])[..(packet_len - 9)]))")]),
+    dict(name='NEUTRAL body array built by element stores', kind='neutral', checks=['C06', 'C16', 'C01'], edits=[
+        dict(file=RQ, old="let message_data: [u8; 3] = [operation as u8, pool_size, starting_eid];", new="let mut message_data: [u8; 3] = [0; 3];\n        message_data[2] = starting_eid;\n        message_data[0] = operation as u8;\n        message_data[1] = pool_size;")]),
+    dict(name='NEUTRAL PEC helper function', kind='neutral', checks=['C02', 'C09'], edits=[
+        dict(file=S, old="""                if pec != calculated_pec {
+                    return Err((
+                        MessageType::VendorDefinedIANA,""", new="""                if !Self::pec_matches(pec, calculated_pec) {
+                    return Err((
+                        MessageType::VendorDefinedIANA,"""),
+        dict(file=S, old="    /// Get the MCTP control packet\n", new="    fn pec_matches(a: u8, b: u8) -> bool {\n        a == b\n    }\n\n    /// Get the MCTP control packet\n")]),
+]
